@@ -579,9 +579,17 @@ func genC15Program(t *T) (family int, init []Op, progs [][]cOp) {
 		}
 		step++
 		progs[1] = []cOp{{H: "HOpen", Op: Op{P: "b", Flag: hackpadfs.FlagReadWrite}}, {H: "HTruncate", N: 0}, {H: "HWrite", Op: Op{Data: uniqueData(step, []int{3, 1, 9}[c.Draw(3)])}}}
-	} else if family == 1 && listTask < 0 && c.Chance(1, 4) {
+	} else if family == 1 && listTask < 0 && c.Chance(1, 3) {
 		// twins: the second task starts with the very operation the first one starts with (two creates, two
 		// removes, two renames of one name: the shortest check-then-act races)
+		if c.Chance(1, 3) {
+			// most often raced in practice: two creating opens of one missing name (with any access mode)
+			flag := []int{hackpadfs.FlagReadOnly, hackpadfs.FlagWriteOnly, hackpadfs.FlagReadWrite}[c.Draw(3)] | hackpadfs.FlagCreate
+			if c.Chance(2, 3) {
+				flag |= hackpadfs.FlagExclusive
+			}
+			progs[0][0] = cOp{H: "HOpen", Op: Op{P: "new", Flag: flag}}
+		}
 		progs[1][0] = progs[0][0]
 	}
 	if family == 2 {
